@@ -682,3 +682,56 @@ Print Assumptions frag3_reference_run.
 Theorem frag3_compile_correct_thm : frag3_compile_correct.
 Proof. exact Frag3Glue.frag3_compile_correct_lemma. Qed.
 Print Assumptions frag3_compile_correct_thm.
+
+(* ---------------------------------------------------------------------------------------------
+   CC, the fragment F4 (coq/CC/Frag4Sem.v in_frag4): multi-target local declarations and
+   assignments to locals, string literals, reads of undefined globals, and arithmetic / unary minus
+   on ANY of these values - nil, booleans, numbers, strings - with the coercion of numeric strings
+   (no taint restriction any more). The VM (objectArith, OP_UNM: parseNumber) and the reference
+   evaluator (tonum) coerce through the same Num.text_to_f; a string that is no numeral has no
+   arithmetic metamethod (the string metatable only has __index), so the operation is the
+   arithmetic error at the statement's line in both. Every string literal of the program must be
+   inside the exact fragment of text_to_f (lit_ok). Bytecode semantics isem4 = isem3 with coercing
+   ADD..POW/UNM, own back half coq/CC/CompFactsVM4.v; F4 contains the programs of F3 whose literals
+   are lit_ok (frag3_in_frag4). *)
+From GL Require Import CC.Frag4Sem.
+From GL Require CC.CompFactsVM4 CC.Frag4Facts CC.Frag4Eval CC.Frag4Glue.
+
+Definition frag4_compile_correct : Prop :=
+  forall b p, in_frag4 b = true -> compile_frag b = Some p ->
+  exists n, forall fuel, (n <= fuel)%nat ->
+    is_skip (outcome_of (Run.run_program fuel no_devs b)) = false ->
+    outcome_of_vfin (run_proto fuel p) = outcome_of (Run.run_program fuel no_devs b).
+
+Theorem frag3_in_frag4 : forall b, in_frag3 b = true -> forallb Frag4Glue.stmt_strs_ok b = true -> in_frag4 b = true.
+Proof. exact Frag4Glue.frag3_in_frag4. Qed.
+Print Assumptions frag3_in_frag4.
+
+Theorem vm_runs_isem4 : forall ul consts nregs fuel,
+  0 <= nregs -> Forall (fun wl => 0 <= fst wl < 2 ^ 32) ul -> (length ul + 2 <= fuel)%nat ->
+  match isem4_code consts ul [] with
+  | CRet vs => exists s', run_proto fuel (CompFactsVM4.frag_proto ul consts nregs) = VFinOk vs s' /\ vtrace s' = []
+  | CFault ln => exists s', run_proto fuel (CompFactsVM4.frag_proto ul consts nregs) = VFinErr (VFault 2 ln) s' /\ vtrace s' = []
+  | _ => True
+  end.
+Proof. exact CompFactsVM4.vm_runs_isem_lemma. Qed.
+Print Assumptions vm_runs_isem4.
+
+Theorem frag4_compile_front_half : Frag4Glue.front_half4.
+Proof. exact Frag4Facts.front_half4_lemma. Qed.
+Print Assumptions frag4_compile_front_half.
+
+Theorem frag4_reference_run : forall b fuel d, in_frag4 b = true -> (Frag4Eval.frag_fuel4 b <= fuel)%nat ->
+  match prun4 [] b with
+  | CRet vs => exists s', Run.run_program fuel d b = Run.FinOk vs s' /\ trace s' = [] /\ forallb is_sval4 vs = true
+  | CFault ln => exists s', Run.run_program fuel d b = Run.FinErr (VFault 2 ln) s' /\ trace s' = []
+  | CUnsup => Run.run_program fuel d b = Run.FinUnsup 1
+  | CStuck => False
+  end.
+Proof. exact Frag4Eval.frag4_run_lemma. Qed.
+Print Assumptions frag4_reference_run.
+
+(* THE theorem on F4 *)
+Theorem frag4_compile_correct_thm : frag4_compile_correct.
+Proof. exact Frag4Glue.frag4_compile_correct_lemma. Qed.
+Print Assumptions frag4_compile_correct_thm.
